@@ -139,7 +139,7 @@ var (
 	// Regexp to parse loop instruction.
 	reLoop      = regexp.MustCompile(`for .*`)
 	reLoopRange = regexp.MustCompile(`for ([^:]+)\s*:*=\s*range\s*([^\s]*)\s*(?:separator|sep)*\s*(.*)` + "")
-	reLoopCount = regexp.MustCompile(`for (\w*)\s*:*=\s*(\w+)\s*;\s*\w+\s*(<=|>=|!=|<|>)+\s*([^;]+)\s*;\s*\w*(--|\+\+)+\s*(?:separator|sep)*\s*(.*)`)
+	reLoopCount = regexp.MustCompile(`for (\w*)\s*:*=\s*(-?\w+)\s*;\s*\w+\s*(<=|>=|!=|<|>)+\s*([^;]+)\s*;\s*\w*(--|\+\+)+\s*(?:separator|sep)*\s*(.*)`)
 	// Regexp to parse break/lazybreak instructions.
 	reLoopBrkN  = regexp.MustCompile(`break (\d+)`)
 	reLoopLBrkN = regexp.MustCompile(`lazybreak (\d+)`)
